@@ -54,6 +54,7 @@ const maxProofDepth = 128 // syncer/proof.go:20
 const (
 	finDepth   = "C12:chunk-of-tree-deeper-than-128-fails-proof-verification"
 	finRestart = "C12:pathbadger-restore-after-aborted-multipart-of-same-version-unreadable"
+	finPeek    = "C12:seq-chunker-swallows-read-error-when-peeking-next-offset"
 )
 
 func chunkDepth(b []byte) int {
@@ -86,6 +87,8 @@ type Case struct {
 	Gate       int      `json:"gate"`       // 0: none; -1: last chunk; k > 0: chunk (k-1) mod n is pinned in flight (blocking reader) while another caller restores all other chunks
 	GateDup    bool     `json:"gate_dup"`   // a duplicate of the pinned chunk is submitted while the original is in flight
 	Boundary   string   `json:"boundary,omitempty"` // how the chunk size was derived (size == recomputed estimate of a chunk, +-1); informational
+	Fault      int      `json:"fault,omitempty"`      // > 0: one GetNode of the node database fails during CreateCheckpoint (call number 1 + (fault-1) mod total calls of the walk)
+	FaultKind  string   `json:"fault_kind,omitempty"` // "err": a plain I/O error; "notfound": api.ErrNodeNotFound (a Prune racing the checkpointer)
 	Leftover   string   `json:"leftover,omitempty"` // the checkpoint directory already holds files of an earlier attempt for the same root: "full" (a complete earlier checkpoint, meta removed), "partial" (some of its chunk files removed too), "junk" (arbitrary stale files, longer and shorter than the new chunks)
 	PrevSize   uint64   `json:"prev_size,omitempty"`
 	PrevThr    uint16   `json:"prev_threads,omitempty"`
@@ -289,6 +292,93 @@ func createOnce(s *source, size uint64, threads uint16) (*ckpt, error) {
 		c.chunks = append(c.chunks, buf.Bytes())
 	}
 	return c, nil
+}
+
+// faultDB forwards everything to the real node database; the k-th GetNode
+// after arming fails once (chunker goroutines call it concurrently).
+type faultDB struct {
+	api.NodeDB
+	mu        sync.Mutex
+	calls     int
+	countdown int
+	fired     bool
+	err       error
+}
+
+var errInjected = errors.New("verif: injected node database read error")
+
+func (f *faultDB) GetNode(root node.Root, ptr *node.Pointer) (node.Node, error) {
+	f.mu.Lock()
+	f.calls++
+	fail := false
+	if f.countdown > 0 {
+		f.countdown--
+		if f.countdown == 0 {
+			f.fired, fail = true, true
+		}
+	}
+	f.mu.Unlock()
+	if fail {
+		return nil, f.err
+	}
+	return f.NodeDB.GetNode(root, ptr)
+}
+
+// createFaulty runs CreateCheckpoint over a node database whose k-th GetNode
+// fails.  It returns (nil, reason) when the creation reported the error.
+func createFaulty(s *source, c Case) (*ckpt, string, error) {
+	ctx := context.Background()
+	fdb := &faultDB{NodeDB: s.ndb}
+	// dry run: how many reads does the walk make
+	cpCounter++
+	dir0 := filepath.Join(s.dir, fmt.Sprintf("cpf%d", cpCounter))
+	defer os.RemoveAll(dir0)
+	fc0, err := checkpoint.NewFileCreator(dir0, fdb)
+	if err != nil {
+		return nil, "", err
+	}
+	if _, err := fc0.CreateCheckpoint(ctx, s.root, c.ChunkSize, c.Threads); err != nil {
+		return nil, "", err
+	}
+	total := fdb.calls
+	if total == 0 {
+		return nil, "no-reads", nil
+	}
+	cpCounter++
+	dir := filepath.Join(s.dir, fmt.Sprintf("cpf%d", cpCounter))
+	defer os.RemoveAll(dir)
+	fc, err := checkpoint.NewFileCreator(dir, fdb)
+	if err != nil {
+		return nil, "", err
+	}
+	fdb.err = errInjected
+	if c.FaultKind == "notfound" {
+		fdb.err = api.ErrNodeNotFound
+	}
+	fdb.calls, fdb.fired = 0, false
+	fdb.countdown = 1 + (c.Fault-1)%total
+	k := fdb.countdown
+	meta, err := fc.CreateCheckpoint(ctx, s.root, c.ChunkSize, c.Threads)
+	fdb.countdown = 0
+	if err != nil {
+		return nil, "create-error", nil
+	}
+	if !fdb.fired {
+		return nil, "fault-not-reached", nil
+	}
+	out := &ckpt{meta: meta}
+	for i := range meta.Chunks {
+		cm, err := meta.GetChunkMetadata(uint64(i))
+		if err != nil {
+			return nil, "", err
+		}
+		var buf bytes.Buffer
+		if err := fc.GetCheckpointChunk(ctx, cm, &buf); err != nil {
+			return nil, "", err
+		}
+		out.chunks = append(out.chunks, buf.Bytes())
+	}
+	return out, fmt.Sprintf("success-although-read-%d-of-%d-failed", k, total), nil
 }
 
 // createOver creates the checkpoint in a directory that already holds the
@@ -616,6 +706,7 @@ func decodeChunk(b []byte) ([]kv, int, error) {
 type finding struct{ key, what string }
 
 type result struct {
+	faultNote string
 	ests     []uint64 // sequential chunker: recomputed estimate of every chunk
 	finds    []finding
 	viol     []string
@@ -910,7 +1001,41 @@ func runCase(c Case) (res *result) {
 		// the usual restore runs from what is served
 		cp = over
 	}
+	if c.Fault > 0 {
+		// a read error during creation: either CreateCheckpoint reports it, or what
+		// it created must restore to exactly the source contents
+		fcp, why, err := createFaulty(s, c)
+		if err != nil {
+			res.v("create-checkpoint-with-fault-setup-failed: %v", err)
+			return
+		}
+		if fcp == nil {
+			res.s("fault:" + why)
+		} else {
+			res.s("fault:success-after-failed-read")
+			res.faultNote = why
+			res.skipK = true // not the fault-free creation the model describes
+			cp = fcp
+		}
+	}
+	nv := len(res.viol)
 	checkChunks(s, cp, c.ChunkSize, c.Threads, res)
+	if res.faultNote != "" && len(res.viol) > nv {
+		// Known defect, exactly this call site: seqChunker.createChunk (chunk.go:117-120) calls
+		// it.Next() to learn the next offset AFTER the proof of a chunk that was closed by its size
+		// and never looks at it.Err(): a failed read there reads as "end of tree".  Signature: the
+		// sequential chunker, the checkpoint is a strict prefix, and its last chunk had reached the
+		// chunk size (a chunk cut short by an error inside the loop has not).
+		if c.Threads == 0 && len(res.ests) > 0 && res.ests[len(res.ests)-1] >= c.ChunkSize {
+			what := fmt.Sprintf("CreateCheckpoint reported %s and returned metadata for a checkpoint that covers only a prefix of the keys (%d chunks, last one closed by its size): %s", res.faultNote, len(cp.chunks), res.viol[nv])
+			res.viol = res.viol[:nv]
+			res.finds = append(res.finds, finding{finPeek, what})
+			return
+		}
+		for i := nv; i < len(res.viol); i++ {
+			res.viol[i] += " [CreateCheckpoint reported " + res.faultNote + "]"
+		}
+	}
 	n := len(cp.chunks)
 	if n == 0 {
 		return
@@ -1395,6 +1520,13 @@ func genCases(r *prng.R, i int, maxN int, perTree int) []Case {
 			c.AbortAt = r.Intn(1 << 20)
 		}
 		c.FullAbort = r.Chance(40)
+		if r.Chance(25) {
+			c.Fault = 1 + r.Intn(1<<20)
+			c.FaultKind = []string{"err", "notfound"}[r.Intn(2)]
+			if r.Chance(50) {
+				c.Threads = 0
+			}
+		}
 		if r.Chance(22) {
 			c.Leftover = []string{"full", "full", "partial", "junk"}[r.Intn(4)]
 			// mostly an earlier attempt with BIGGER chunks (its files are longer than the new ones)
@@ -1455,6 +1587,7 @@ func shrink(c Case, kind string) Case {
 	cur := c
 	for _, f := range []func(*Case){
 		func(d *Case) { d.Goroutines = 1 },
+		func(d *Case) { d.Leftover = "" },
 		func(d *Case) {
 			if d.Leftover != "" {
 				d.Leftover = "full"
